@@ -111,8 +111,14 @@ def main():
             errors.extend(P.get("errors", []))
             assumptions.extend(P.get("assumptions", []))
             for fn in P.get("functions", []):
+                loops_ok = all(o["status"] == "discharged" for o in fn.get("obligations", []) if o.get("kind", "").startswith("loop"))
                 for ob in fn.get("obligations", []):
-                    if ob["status"] == "failed":
+                    if ob["status"] == "failed" and not (ob.get("prop") and loops_ok):
+                        # refuted auxiliary clause (frame, helper exactness, loop invariant, safety) or a property clause whose
+                        # loop invariants no longer hold: the PROOF is broken, which is not a verdict about the property
+                        undecided.append({"obligation": ob["name"], "site": fn["name"],
+                                          "reason": "auxiliary obligation refuted (proof broken, layer B decides): " + ob.get("solver_output", "")[:200]})
+                    elif ob["status"] == "failed":
                         violations.append({"layer": "P", "site": fn["name"], "clause": ob["name"],
                                            "witness_class": ob.get("witness_class", "model"),
                                            "message": ob.get("message", ""), "model": ob.get("model"),
